@@ -25,7 +25,14 @@ REPO = os.environ.get("PVX_REPO", "/repo")
 EXIT_OK, EXIT_VIOLATION, EXIT_INCONCLUSIVE = 0, 1, 3
 
 
+_MISSING = object()
+
+
 class AssumptionFailed(BaseException):
+    pass
+
+
+class StopReplay(BaseException):
     pass
 
 
@@ -43,14 +50,20 @@ class _CtxBase:
         self.reached = {}
 
     def patch(self, obj, attr, value):
-        old = getattr(obj, attr)
+        old = getattr(obj, attr, _MISSING) if attr in getattr(obj, "__dict__", {}) or hasattr(obj, attr) else _MISSING
         self._patches.append((obj, attr, old))
         setattr(obj, attr, value)
 
     def undo_patches(self):
         while self._patches:
             obj, attr, old = self._patches.pop()
-            setattr(obj, attr, old)
+            if old is _MISSING:
+                try:
+                    delattr(obj, attr)
+                except AttributeError:
+                    pass
+            else:
+                setattr(obj, attr, old)
 
     def suspended(self):
         """context manager: this context's patches are lifted (the real code is visible) and re-applied after"""
@@ -61,7 +74,10 @@ class _CtxBase:
                 self_inner.saved = []
                 for obj, attr, old in reversed(ctx._patches):
                     self_inner.saved.append((obj, attr, getattr(obj, attr)))
-                    setattr(obj, attr, old)
+                    if old is _MISSING:
+                        delattr(obj, attr)
+                    else:
+                        setattr(obj, attr, old)
 
             def __exit__(self_inner, *exc):
                 for obj, attr, cur in reversed(self_inner.saved):
@@ -194,13 +210,21 @@ class ConcCtx(_CtxBase):
         self.ufs = ufs or {}
         self.failed = []
         self.eng = None
+        self.defaulted = False
 
     def real(self, name):
+        if name not in self.values:
+            # input created after the point the counterexample refers to: any value will do
+            self.defaulted = True
+            return 0.0
         return float(self.values[name])
 
     int = real
 
     def logreal(self, name):
+        if "lg:" + name not in self.values:
+            self.defaulted = True
+            return 1.0
         return 10.0 ** float(self.values["lg:" + name])
 
     def uf(self, name, arity=1, concrete=None):
@@ -212,6 +236,8 @@ class ConcCtx(_CtxBase):
 
     def assume(self, cond):
         if not bool(cond):
+            if self.defaulted:
+                raise StopReplay()      # an assumption about inputs that did not exist yet at the reported point
             raise AssumptionFailed()
 
     def define(self, cond):
@@ -323,8 +349,11 @@ def run_concrete(H, case, values, ufs, findings_open, canary=None, ignore_findin
             obs = H.run(ctx, case)
     except AssumptionFailed:
         outside = True
+    except StopReplay:
+        pass
     except Exception as e:       # noqa: BLE001 - report, never swallow silently
-        err = "%s: %s" % (type(e).__name__, e)
+        if not (ctx.defaulted and ctx.failed):
+            err = "%s: %s" % (type(e).__name__, e)
     finally:
         ctx.undo_patches()
     return list(ctx.failed), obs, outside, err
